@@ -93,6 +93,7 @@ def h_worker(g0: int, g1: int, g2: int, d0: int, d1: int, d2: int, v0: int, v1: 
     """
     vkopf.begin_path()
     r0, r1, v1, v2 = vkopf.pin('r0', r0), vkopf.pin('r1', r1), vkopf.pin('v1', v1), vkopf.pin('v2', v2)
+    g1, g2, r2 = vkopf.pin('g1', g1), vkopf.pin('g2', g2), vkopf.pin('r2', r2)
     n = vkopf.cell('n', 3)
     g0 = 0                     # the first arrival is the origin of time (w.l.o.g.)
     durs = [d0, d1, d2][:n]
@@ -476,6 +477,10 @@ def obligations():
     obs = []
     for (r0, v1) in ((1, 1), (1, 0), (2, 1), (0, 2)):
         obs.append(Ob('h_worker', {'n': 2, 'pin': {'r0': r0, 'v1': v1}}, tiers=('quick',), timeout=900))
+    # three events are within reach only with the arrivals pinned: one PATCH, then two more events of the object queued at once
+    # (both stale / the second one the echo): the barrier set by the PATCH holds for EVERY stale event until the echo or the timeout
+    for (v1, v2) in ((0, 0), (0, 1)):
+        obs.append(Ob('h_worker', {'n': 3, 'pin': {'r0': 1, 'r1': 0, 'r2': 0, 'v1': v1, 'v2': v2, 'g1': 0, 'g2': 0}}, tiers=('quick', 'thorough'), timeout=900))
     obs.append(Ob('h_worker', {'n': 2}, tiers=('quick', 'thorough'), timeout=600, twins=['echo_arrived', 'awaiting', 'expired'], main=False))
     obs += split(Ob('h_worker', {'n': 2}, timeout=1500, tiers=('thorough',)), r0=[0, 1, 2], v1=[0, 1, 2])
     # (three events per cell do not exhaust: > 1600 paths after 20 CPU-minutes for one fully pinned cell -- outside the claim)
